@@ -38,7 +38,13 @@ def rules(t):
         r.site(s)
         idx = [pr for pr in s.node["place"]["proj"] if pr["k"] == "index"][0]
         o = s.fn.origin_of_local(idx["local"])
-        if not (t.mentions_call(o, r"::position$") and "is_none" in repr(o) or t.mentions_call(o, r"::position$")): r.bad("free-slot", s, f"slot index is not position(is_none): {fmt(o)[:60]}")
+        free = t.mentions_call(o, r"::position$")
+        if not free:
+            # an explicit scan: the fill is behind `clients[i].is_none()` for the same i
+            for br in t.find_callcond(s.fn, r"Option.*::is_none$|<T>::is_none$"):
+                a0 = strip(br["cond"][2][0])
+                if isinstance(a0, tuple) and a0[0] == "index" and "clients" in fmt(a0[1]) and stable(a0[2]) == stable(o) and t.edge_dominates(s.fn, br["t_edge"], s.bb): free = True
+        if not free: r.bad("free-slot", s, f"the filled slot is not shown to be free (position(is_none) / clients[i].is_none()): {fmt(o)[:60]}")
     for s in t.stores(NS, "clients"):
         if not s.fn.path.endswith(("::new", "::set_max_clients")): r.bad(f"clients-write|{s.fn.path}", s, "clients array replaced outside new/set_max_clients")
     cr = shared.capacity_rule(t, "C10.b")
@@ -72,7 +78,7 @@ def rules(t):
             if ret[0] == "cmp" and "client_id" in fmt(f.origin_of_local(0)): cm.append(ret)
             if not cm or cm[0][1] not in ("Eq", "Ne"): r.bad(f"{name}|cmp", None, f"{name} does not compare client_id for equality")
     out.append(r)
-    r = RuleResult("C10.e", "slots are written only at the fill and the clears", floor=3)
+    r = RuleResult("C10.e", "slots are written only at the fill and the clears", floor=1)
     known = {(x.fn.path, x.bb, x.idx) for x in fills + clears}
     for s in list(slot_stores(t)):
         r.site(s)
